@@ -145,6 +145,25 @@ def doStep (st : St) (t : Nat) (l : Label) (res : List String) (tag : String)
 
 def isDone : PC → Bool | .done _ => true | _ => false
 
+/-- the thread cannot take its next step because a lock it needs is held (by a `clear` / a maintenance pass) -/
+def waiting (c : Cfg) (s : State) (t : Nat) : Bool :=
+  let held (i : Nat) := (s.sheld i).isSome
+  match s.pc t with
+  | .clr acq pend =>
+    if s.amode t then acq.length + pend.length == c.nShards && !pend.isEmpty && pend.all held
+    else decide (acq.length < c.nShards) && held acq.length
+  | .rd k _ => held (shardOf c k)
+  | .ins k _ _ _ _ => held (shardOf c k)
+  | .rm k => held (shardOf c k)
+  | .cmp k _ _ => held (shardOf c k)
+  | .oi k _ _ => held (shardOf c k)
+  | .mLock sh _ _ => (s.mlock sh).isSome
+  | .mVictim _ _ (vk :: _) _ _ => held (shardOf c vk)
+  | .mTtlMap m _ => held m.sh
+  | .mTti m => decide (c.tti ≠ 0) && held m.sh
+  | .mCapMap m _ _ => held m.sh
+  | _ => false
+
 def step (st : St) (op res : List String) : Except String (St × List String) :=
   match op with
   | "P" :: _ => .ok (st, [])
@@ -164,6 +183,17 @@ def step (st : St) (op res : List String) : Except String (St × List String) :=
     | some t, some a => .ok ({ st with evs := setL st.evs t (getL st.evs t ++ [a]) }, [s!"acq-{showAcc a |>.takeWhile (fun ch => !ch.isDigit && ch != ':')}"])
     | some _, none => .error s!"model=never-takes-this-lock role={role} kind={kind}"
     | none, _ => .error "bad-op"
+  | [ts, "repoll"] =>
+    match ts.toNat? with
+    | some t =>
+      match st.s.pc t with
+      | .clr _ pend =>
+        -- a re-polled async `clear` acquires, in index order, every pending shard that is free now
+        let s' := pend.foldl (fun (acc : State) j =>
+          match Fv.Cache.Conc.step st.c acc t (.clrGet j) with | some s1 => s1 | none => acc) st.s
+        .ok ({ st with s := s' }, ["clear-repoll"])
+      | _ => .ok (st, ["repoll"])
+    | none => .error "bad-op"
   | [ts, "clock"] =>
     match ts.toNat? with
     | some t => .ok ({ st with evs := setL st.evs t (getL st.evs t ++ [.clock]) }, ["clock-read"])
@@ -178,6 +208,12 @@ def step (st : St) (op res : List String) : Except String (St × List String) :=
       else if decide (Quiescent st.c st.s) then
         .ok (st, ["end-ok", if st.s.dirty then "end-accounting-drift-predicted" else "end-accounting-clean"])
       else .error "model=not-quiescent-at-end"
+    else if status.startsWith "deadlock" then
+      -- a deadlock is accepted only if the model is deadlocked too: every unfinished thread waits for a held lock
+      let ts := List.range st.c.nThreads
+      if ts.all (fun t => isRest (st.s.pc t) || waiting st.c st.s t) && ts.any (fun t => !isRest (st.s.pc t)) then
+        .ok (st, ["end-deadlock-predicted"])
+      else .error s!"model=not-deadlocked impl={status}"
     else .error s!"model=every-step-is-non-blocking impl={status}"
   | ts :: "call" :: rest =>
     match ts.toNat?, parseOp rest with
